@@ -56,7 +56,7 @@ def sample_values(rng, vname, validate, default, tools, environ):
     if v == "is_int":
         return [rng.choice([0, 1, -1, 7, 10**12, -(10**9)]) for _ in range(2)]
     if v == "is_float":
-        return [rng.choice([0.0, 0.5, 1.0, 2.25, 1e-3, 123456.789, 0.1])]
+        return [rng.choice([0.0, 0.5, 1.0, 2.25, 1e-3, 123456.789, 0.1, 1234567.125, 1e21])]
     if v == "is_valid_shlvl":
         return [rng.choice([0, 1, 5, 100])]
     if v == "is_string_set":
@@ -64,7 +64,12 @@ def sample_values(rng, vname, validate, default, tools, environ):
     if v == "is_nonstring_seq_of_strings":
         return [[".EXE", ".BAT"][: rng.choice([1, 2])]]
     if v == "is_history_tuple":
-        return [(rng.choice([0, 1, 8128, 10**6]), rng.choice(["commands", "files"])), (float(rng.choice([1, 30, 86400])), "s"), (rng.choice([1, 1024]), "b")]
+        # (numbers with seven and more significant digits included: a `%g`-style rendering does not round-trip them)
+        return [
+            (rng.choice([0, 1, 8128, 10**6, 1234567, 10**7 + 1]), rng.choice(["commands", "files"])),
+            (float(rng.choice([1, 30, 86400, 86400.25, 2592000.5])), "s"),
+            (rng.choice([1, 1024, 20 * 2**20, 2**30, 123456789]), "b"),
+        ]
     if v == "is_dynamic_cwd_width":
         return [(float(rng.choice([10, 20, 50])), rng.choice(["c", "%"])), (float("inf"), "c")]
     if v == "is_logfile_opt":
@@ -445,7 +450,8 @@ def stream_pipeline_env(ctx, n, name="per-command-env-in-pipelines"):
         name,
         "cmds_to_specs on pipelines of 1-4 stages where a seeded subset of the stages carries a `$X=v cmd` prefix (the parser's "
         "`envs` list, aligned with the command list including the '|' entries): every stage's spec must carry exactly its own "
-        "overlay and no other stage's; non-trivial = a prefix on a stage other than the first",
+        "overlay and no other stage's; a stage may be a return_command alias that asks for an overlay of its own, which is merged with "
+        "the inline prefix; non-trivial = a prefix on a stage other than the first",
     )
     import xonsh.environ as environ
     from xonsh.built_ins import XSH
@@ -454,6 +460,17 @@ def stream_pipeline_env(ctx, n, name="per-command-env-in-pipelines"):
 
     XSH.env = environ.Env({"PATH": ["/usr/bin", "/bin"], "HOME": "/tmp"})
     XSH.commands_cache = CommandsCache(XSH.env)
+    from xonsh.aliases import Aliases
+
+    if XSH.aliases is None:
+        XSH.aliases = Aliases()
+
+    # a return_command alias that asks for an environment overlay of its own: it is MERGED with an inline `$X=v` prefix
+    @Aliases.return_command
+    def _xvra(args):
+        return {"cmd": ["cat"], "env": {"XV_ALIAS": "from-alias"}}
+
+    XSH.aliases["xvra"] = _xvra
     for i in range(n):
         k = ctx.rng.choice([1, 2, 2, 3, 3, 4])
         cmds, envs, want = [], [], []
@@ -461,10 +478,14 @@ def stream_pipeline_env(ctx, n, name="per-command-env-in-pipelines"):
             if j:
                 cmds.append("|")
                 envs.append(None)
-            cmds.append(["cat"] if j else ["echo", "hi"])
+            via_alias = ctx.rng.random() < 0.3
+            cmds.append(["xvra"] if via_alias else (["cat"] if j else ["echo", "hi"]))
             e = {f"XV_P{j}": f"v{j}"} if ctx.rng.random() < 0.5 else None
             envs.append(e)
-            want.append(e)
+            w = dict(e or {})
+            if via_alias:
+                w["XV_ALIAS"] = "from-alias"
+            want.append(w or None)
         try:
             specs = cmds_to_specs(cmds, captured="hiddenobject", envs=envs)
         except Exception as ex:  # noqa: BLE001
